@@ -1,4 +1,315 @@
 import FqModel.Proto
-/-! driver for C12 (stub — replaced by the property's own driver) -/
-open FqModel.Proto
-def main : IO Unit := run (fun _ _ => "BADOP driver-stub")
+import FqModel.Bits
+import FqModel.Nav
+/-! driver for C12
+
+  `tree <format> <hex input> <dump> | <probe paths>`  TAB  `<node obs> ; … | <probe results>`
+      dump  : pre-order, one token per node `K,isRoot,hasFormat,hex(name),Index,nkids` (K = S|A|L), the real
+              shape of the decode tree walked in Go;
+      node obs (pre-order, the node's id is its position):
+              `<topath> <getpath> <parent> <root> <buffer_root> <format_root> <parents> <tupV> <tupG> <hV> <hG>`
+              where ids are pre-order numbers, `null`, `err`, `x` (not a decode value), `?` (a decode value that
+              is not in the tree); tup = `_start._stop.hex(_name)._index|n`; h = hash of `tovalue|tojson` or `-`.
+      verdict: the property predicate evaluated on fq's answers against the dumped shape (identity of
+              `root|getpath(v|topath)`, parent contains v under its reported name/index, roots, parents chain),
+              then model = observation for every navigation result and probe.
+  `expr <path>`  TAB  `<hex of path_to_expr> ok <path of expr_to_path>` | `<hex> err…` | `perr`
+      path items: `s<hex utf-8>` / `i<decimal>` joined by `,`; `-` = empty path.
+-/
+open FqModel FqModel.Proto FqModel.Nav
+
+/-! ### parsing -/
+
+def strOfHex (h : String) : Option String :=
+  if h == "-" || h == "" then some ""
+  else match bytesOfHex h with
+    | some bs => String.fromUTF8? (ByteArray.mk bs.toArray)
+    | none => none
+
+def parseItem (w : String) : Option PItem :=
+  if w.startsWith "s" then (strOfHex (w.drop 1).toString).map .inl
+  else if w.startsWith "i" then ((w.drop 1).toString.toInt?).map .inr
+  else none
+
+def parsePathTok (w : String) : Option Path :=
+  if w == "-" then some [] else (w.splitOn ",").mapM parseItem
+
+def parseBool01 (s : String) : Option Bool :=
+  if s == "1" then some true else if s == "0" then some false else none
+
+structure Tok where
+  info : Info
+  nkids : Nat
+
+def parseTok (w : String) : Option Tok :=
+  match w.splitOn "," with
+  | [k, r, f, nm, ix, n] => do
+    let kind ← (if k == "S" then some Kind.struct else if k == "A" then some Kind.array
+                else if k == "L" then some Kind.leaf else none)
+    let r ← parseBool01 r
+    let f ← parseBool01 f
+    let nm ← strOfHex nm
+    let ix ← ix.toInt?
+    let n ← n.toNat?
+    pure { info := { name := nm, index := ix, isRoot := r, hasFormat := f, kind := kind }, nkids := n }
+  | _ => none
+
+mutual
+partial def buildNode (toks : Array Tok) (pos : Nat) : Option (Tree × Nat) :=
+  if h : pos < toks.size then
+    let tk := toks[pos]
+    match buildKids toks (pos + 1) tk.nkids #[] with
+    | some (kids, pos') => some (.mk tk.info kids.toList, pos')
+    | none => none
+  else none
+partial def buildKids (toks : Array Tok) (pos : Nat) (n : Nat) (acc : Array Tree) : Option (Array Tree × Nat) :=
+  if n = 0 then some (acc, pos)
+  else match buildNode toks pos with
+    | some (t, pos') => buildKids toks pos' (n - 1) (acc.push t)
+    | none => none
+end
+
+/-- pointers of all nodes in pre-order -/
+partial def ptrsOf (t : Tree) (self : Ptr) (acc : Array Ptr) : Array Ptr := Id.run do
+  let mut acc := acc.push self
+  let mut k := 0
+  for c in t.kids do
+    acc := ptrsOf c (k :: self) acc
+    k := k + 1
+  return acc
+
+/-- an observed id -/
+inductive Obs
+  | node (id : Nat)
+  | null | err | other | foreign
+deriving BEq, Repr
+
+def parseObsId (w : String) : Option Obs :=
+  if w == "null" then some .null
+  else if w == "err" then some .err
+  else if w == "x" then some .other
+  else if w == "?" then some .foreign
+  else w.toNat?.map .node
+
+def showOptPtr (ptrs : Array Ptr) (p : Option Ptr) : String :=
+  match p with
+  | none => "-"
+  | some q => match ptrs.toList.findIdx? (· == q) with
+    | some i => toString i
+    | none => s!"ptr{q}"
+
+/-- does the observation denote exactly this model result (a node or "not a node") -/
+def obsIs (ptrs : Array Ptr) (o : Obs) (m : Option Ptr) : Bool :=
+  match o, m with
+  | .node id, some q => ptrs[id]? == some q
+  | .null, none => true
+  | .err, none => true
+  | .other, none => true
+  | _, _ => false
+
+structure Tup where
+  start : String
+  stop : String
+  name : String
+  index : Option Int
+deriving BEq
+
+def parseTup (w : String) : Option Tup :=
+  match w.splitOn "." with
+  | [a, b, n, i] => do
+    let nm ← strOfHex n
+    let ix ← (if i == "n" then some none else i.toInt?.map some)
+    pure { start := a, stop := b, name := nm, index := ix }
+  | _ => none
+
+/-! ### the tree case -/
+
+structure NodeObs where
+  path : String
+  g : String
+  par : String
+  root : String
+  broot : String
+  froot : String
+  parents : String
+  tupV : String
+  tupG : String
+  hV : String
+  hG : String
+
+def parseNodeObs (s : String) : Option NodeObs :=
+  match words s with
+  | [a, b, c, d, e, f, g, h, i, j, k] => some ⟨a, b, c, d, e, f, g, h, i, j, k⟩
+  | _ => none
+
+/-- the pointer itself and all its ancestors, nearest first -/
+def selfAndAncestors : Ptr → List Ptr
+  | [] => [[]]
+  | k :: up => (k :: up) :: selfAndAncestors up
+
+/-- nearest pointer among `n` and its ancestors (nearest first) that satisfies `p`, else the top -/
+def nearest (n : Ptr) (p : Ptr → Bool) : Ptr :=
+  match ((selfAndAncestors n).filter (· ≠ [])).find? p with
+  | some q => q
+  | none => []
+
+def checkNode (t : Tree) (ptrs : Array Ptr) (id : Nat) (n : Ptr) (o : NodeObs) : Option String := do
+  -- returns some failure text, none if fine; "P:" = property predicate, "M:" = model divergence
+  let some v := deref t n | some s!"M: node {id}: driver cannot dereference its own pointer"
+  let some path := parsePathTok o.path | some s!"P: node {id}: topath failed or is not an array of strings/ints ({o.path})"
+  let some g := parseObsId o.g | some s!"B: node {id}: bad id {o.g}"
+  -- P1: root | getpath(v | topath) is v itself
+  if g != .node id then
+    some s!"P: node {id}: root|getpath(topath) is {o.g}, not the value itself (topath={o.path})"
+  else if o.tupV != o.tupG then
+    some s!"P: node {id}: (_start,_stop,_name,_index) of getpath result {o.tupG} differs from the value's {o.tupV}"
+  else if o.hV != o.hG || o.hV == "err" then
+    some s!"P: node {id}: tovalue of the getpath result differs ({o.hV} vs {o.hG})"
+  else
+  let some tv := parseTup o.tupV | some s!"B: node {id}: bad tuple {o.tupV}"
+  -- reported _name/_index against the dumped Go fields
+  if tv.name != v.info.name then some s!"M: node {id}: _name differs from the dumped Name"
+  else if tv.index != (if v.info.index == -1 then none else some v.info.index) then
+    some s!"M: node {id}: _index {repr tv.index} differs from the dumped Index {v.info.index}"
+  else
+  -- P2: the parent contains v under its reported name / index
+  let some par := parseObsId o.par | some s!"B: node {id}: bad id {o.par}"
+  let p2 : Option String :=
+    match n with
+    | [] => if par == .null then none else some s!"P: node {id}: the root has a parent ({o.par})"
+    | k :: up =>
+      if !(obsIs ptrs par (some up)) then some s!"P: node {id}: parent is {o.par}, expected {showOptPtr ptrs (some up)}"
+      else match deref t up with
+        | none => some s!"M: node {id}: no parent in dump"
+        | some pv =>
+          match pv.info.kind with
+          | .struct =>
+            if lookupName tv.name pv.kids == some k && path.getLast? == some (.inl tv.name) then none
+            else some s!"P: node {id}: its struct parent does not contain it under the reported name (last path element {o.path})"
+          | .array =>
+            if tv.index == some (k : Int) && path.getLast? == some (.inr (k : Int)) then none
+            else some s!"P: node {id}: its array parent does not contain it at the reported index {repr tv.index} (position {k}, topath={o.path})"
+          | .leaf => some s!"P: node {id}: parent is a leaf"
+  if let some e := p2 then some e else
+  -- P3: roots and parents agree with the shape
+  let some r := parseObsId o.root | some s!"B: node {id}: bad id"
+  let some br := parseObsId o.broot | some s!"B: node {id}: bad id"
+  let some fr := parseObsId o.froot | some s!"B: node {id}: bad id"
+  let flag (f : Info → Bool) (q : Ptr) : Bool := match deref t q with | some w => f w.info | none => false
+  let expBR := nearest n (flag (·.isRoot))
+  let expFR := nearest n (flag (fun i => i.isRoot || i.hasFormat))
+  if r != .node 0 then some s!"P: node {id}: root is {o.root}, not the top of the tree"
+  else if !(obsIs ptrs br (some expBR)) then
+    some s!"P: node {id}: buffer_root is {o.broot}, the nearest enclosing buffer root is {showOptPtr ptrs (some expBR)}"
+  else if !(obsIs ptrs fr (some expFR)) then
+    some s!"P: node {id}: format_root is {o.froot}, the nearest enclosing format/buffer root is {showOptPtr ptrs (some expFR)}"
+  else
+  let expParents := (selfAndAncestors n).drop 1
+  let obsParents : Option (List Obs) := if o.parents == "-" then some [] else (o.parents.splitOn ",").mapM parseObsId
+  let some ops := obsParents | some s!"P: node {id}: parents failed ({o.parents})"
+  if ops.length != expParents.length || !((ops.zip expParents).all (fun (a, b) => obsIs ptrs a (some b))) then
+    some s!"P: node {id}: parents is {o.parents}, the chain of parents up to the root has {expParents.length} elements"
+  else
+  -- model = implementation
+  if pathOf t n != path then some s!"M: node {id}: model pathOf differs from topath {o.path}"
+  else if resolve t path != some n then some s!"M: node {id}: model resolve of topath is {showOptPtr ptrs (resolve t path)}"
+  else if Nav.root t n != [] then some s!"M: node {id}: model root"
+  else if bufferRoot t n != expBR || !(obsIs ptrs br (some (bufferRoot t n))) then some s!"M: node {id}: model bufferRoot {showOptPtr ptrs (some (bufferRoot t n))} vs {o.broot}"
+  else if formatRoot t n != expFR || !(obsIs ptrs fr (some (formatRoot t n))) then some s!"M: node {id}: model formatRoot {showOptPtr ptrs (some (formatRoot t n))} vs {o.froot}"
+  else if Nav.parents n != expParents then some s!"M: node {id}: model parents"
+  else if !(obsIs ptrs par (parent n)) then some s!"M: node {id}: model parent"
+  else none
+
+def treeVerdict (op obs : String) : String :=
+  match op.splitOn " | ", obs.splitOn " | " with
+  | [opL, opR], [obL, obR] =>
+    match words opL with
+    | "tree" :: _fmt :: _hex :: dump =>
+      match dump.mapM parseTok with
+      | none => "BADOP dump"
+      | some toks =>
+        let toks := toks.toArray
+        match buildNode toks 0 with
+        | none => "BADOP dump-shape"
+        | some (t, used) =>
+          if used != toks.size then "BADOP dump-trailing" else
+          let ptrs := ptrsOf t [] #[]
+          let nodeObs := (obL.splitOn " ; ").map parseNodeObs
+          if nodeObs.length != ptrs.size then s!"BADOP {nodeObs.length} node observations for {ptrs.size} nodes"
+          else if nodeObs.any (·.isNone) then "BADOP node-observation"
+          else
+            let fails := ((List.range ptrs.size).zip nodeObs).filterMap (fun (i, o) =>
+              match o with
+              | some o => checkNode t ptrs i ptrs[i]! o
+              | none => some "B: obs")
+            -- probes
+            let probes := (words opR).map parsePathTok
+            let pobs := (words obR).map parseObsId
+            let probes := if words opR == ["-"] && pobs.length == 1 then [some ([] : Path)] else probes
+            let pf : List String :=
+              if probes.length != pobs.length then [s!"B: {probes.length} probes, {pobs.length} results"]
+              else (probes.zip pobs).filterMap (fun (p, o) =>
+                match p, o with
+                | some p, some o =>
+                  if o == .foreign then
+                    some s!"P: getpath of a probe path returned a decode value that is not a node of the tree (a stale struct key?)"
+                  else if obsIs ptrs o (resolve t p) then none
+                  else some s!"M: probe: model resolve is {showOptPtr ptrs (resolve t p)}, fq returned {repr o}"
+                | _, _ => some "B: probe")
+            let wf : List String := if t.wfb then [] else
+              ["P: the tree is not well-formed (duplicate struct name, array Index ≠ position, or a leaf with children)"]
+            let all := fails ++ pf ++ wf
+            let bad := all.find? (·.startsWith "B:")
+            let pfail := all.find? (·.startsWith "P:")
+            let div := all.find? (·.startsWith "M:")
+            match bad, pfail, div with
+            | some b, _, _ => s!"BADOP {b}"
+            | none, some p, some d => s!"PROPFAIL {p} ;DIVERGE model={d}"
+            | none, some p, none => s!"PROPFAIL {p}"
+            | none, none, some d => s!"DIVERGE model={d}"
+            | none, none, none => "OK"
+    | _ => "BADOP op"
+  | _, _ => "BADOP split"
+
+/-! ### the expr case -/
+
+def showItem : PItem → String
+  | .inl s => "s" ++ (if s.isEmpty then "" else hexOfBytes s.toUTF8.toList)
+  | .inr i => "i" ++ toString i
+
+def showPath (p : Path) : String := if p.isEmpty then "-" else ",".intercalate (p.map showItem)
+
+def exprVerdict (ptok obs : String) : String :=
+  match parsePathTok ptok with
+  | none => "BADOP path"
+  | some p =>
+    let modelExpr := pathToExpr p
+    let modelHex := hexOfBytes modelExpr.toUTF8.toList
+    match words obs with
+    | ["perr"] => s!"PROPFAIL path_to_expr failed on a path of strings and integers ;DIVERGE model={modelHex}"
+    | h :: rest =>
+      match strOfHex h with
+      | none => "BADOP expr-hex"
+      | some e =>
+        let div := if e == modelExpr then "" else s!" ;DIVERGE model={modelHex}"
+        -- the model's parser on fq's string (is fq's string inside the modelled language, and does it mean p?)
+        let mparse := exprToPath e
+        match rest with
+        | ["ok", back] =>
+          match parsePathTok back with
+          | none => "BADOP back-path"
+          | some q =>
+            if q != p then s!"PROPFAIL path_to_expr | expr_to_path gives {back} for {ptok}{div}"
+            else if mparse != some p then
+              s!"DIVERGE model=parser gives {(mparse.map showPath).getD "none"} on fq's expression{div}"
+            else if div.isEmpty then "OK" else s!"DIVERGE model={modelHex}"
+        | _ => s!"PROPFAIL path_to_expr | expr_to_path fails ({" ".intercalate rest}) for {ptok}{div}"
+    | _ => "BADOP obs"
+
+def stepC12 (op obs : String) : String :=
+  match words op with
+  | ["expr", p] => exprVerdict p obs
+  | "tree" :: _ => treeVerdict op obs
+  | _ => "BADOP op"
+
+def main : IO Unit := run stepC12
